@@ -14931,3 +14931,78 @@ func E11SplitPartition(c *core.Ctx, r *core.Report) {
 	r.Count("E11.split-partition-paths", n)
 	r.Floor("E11.split-partition-paths", 2)
 }
+
+// E11StaleAfterBuilder: what Join reads from the receiver before it replays a command is not used afterwards.
+func E11StaleAfterBuilder(c *core.Ctx, r *core.Report) {
+	r.Rule("E11.stale-after-builder", "Path.Join replays the first command of its argument through the builder methods (MoveTo, LineTo, QuadTo, CubeTo, ArcTo, Close), which change the receiver — a replayed MoveTo starts a new sub-path. A local read from the receiver by a niladic method (StartPos(), Pos(), …) before that replay describes the receiver as it was; it is not read after the replay. Path.replace hands Join a rest that begins with a MoveTo, so a start position taken too early is that of the previous sub-path, and a Close further on is repaired to return there")
+	p := c.MustPkg("")
+	info := p.TypesInfo
+	fd := core.MustFuncDecl(p, "Path.Join")
+	recv := info.Defs[fd.Recv.List[0].Names[0]]
+	builders := map[string]bool{"MoveTo": true, "LineTo": true, "QuadTo": true, "CubeTo": true, "ArcTo": true, "Close": true}
+	var firstBuilder, lastBuilder token.Pos
+	ast.Inspect(fd.Body, func(m ast.Node) bool {
+		call, ok := m.(*ast.CallExpr)
+		if !ok {
+			return true
+		}
+		se, ok := call.Fun.(*ast.SelectorExpr)
+		if !ok || !builders[se.Sel.Name] {
+			return true
+		}
+		if id, ok := core.Unparen(se.X).(*ast.Ident); ok && core.ObjOf(info, id) == recv {
+			if firstBuilder == 0 || call.Pos() < firstBuilder {
+				firstBuilder = call.Pos()
+			}
+			if call.End() > lastBuilder {
+				lastBuilder = call.End()
+			}
+		}
+		return true
+	})
+	key := "canvas.Path.Join|nothing read from the receiver before the replay is used after it"
+	r.Count("E11.stale-after-builder", 1)
+	if firstBuilder == 0 {
+		r.Fail("E11.stale-after-builder", key, c.Pos(fd.Pos()), "the replay of the argument's first command through the builder methods was not found")
+		return
+	}
+	early := map[types.Object]ast.Expr{}
+	ast.Inspect(fd.Body, func(m ast.Node) bool {
+		as, ok := m.(*ast.AssignStmt)
+		if !ok || as.Pos() >= firstBuilder || len(as.Lhs) != len(as.Rhs) {
+			return true
+		}
+		for i, l := range as.Lhs {
+			id, ok := l.(*ast.Ident)
+			if !ok {
+				continue
+			}
+			call, ok := core.Unparen(as.Rhs[i]).(*ast.CallExpr)
+			if !ok || len(call.Args) != 0 {
+				continue
+			}
+			if se, ok := call.Fun.(*ast.SelectorExpr); ok {
+				if rid, ok := core.Unparen(se.X).(*ast.Ident); ok && core.ObjOf(info, rid) == recv {
+					early[core.ObjOf(info, id)] = as.Rhs[i]
+				}
+			}
+		}
+		return true
+	})
+	bad := ""
+	ast.Inspect(fd.Body, func(m ast.Node) bool {
+		id, ok := m.(*ast.Ident)
+		if !ok || id.Pos() <= lastBuilder {
+			return true
+		}
+		if def, ok := early[core.ObjOf(info, id)]; ok && bad == "" {
+			bad = fmt.Sprintf("`%s` (= `%s`, read before the first command of the argument is replayed) is used at %s, after the replay: when that command is a MoveTo the receiver has a new sub-path by then and the value belongs to the previous one", id.Name, c.Src(def), c.Pos(id.Pos()))
+		}
+		return true
+	})
+	if bad == "" {
+		r.OK("E11.stale-after-builder", key, c.Pos(fd.Pos()), "")
+	} else {
+		r.Fail("E11.stale-after-builder", key, c.Pos(fd.Pos()), bad)
+	}
+}
